@@ -37,6 +37,7 @@ def run(ctx):
     ctx.guard(rule_c, ctx, ix)
     ctx.guard(rule_d, ctx, ix)
     ctx.guard(rule_e, ctx, ix)
+    ctx.guard(rule_f, ctx, ix)
 
 
 def _loop(f, data_p):
@@ -325,3 +326,34 @@ def rule_e(ctx, ix):
                           shape=unparse(c), where=where(f, cmp_))
     if n < 1:
         raise AnalysisError('LoadLog.__gluestate__: the coordinate-count heuristic is no longer recognised')
+
+
+BUILTIN_SCALARS = {'float': 'float64 only (float32 / float16 columns are not sub-dtypes of it)', 'int': 'the platform integer only',
+                   'complex': 'complex128 only', 'bool': 'numpy.bool_ only', 'str': 'numpy.str_', 'bytes': 'numpy.bytes_'}
+
+
+def rule_f(ctx, ix):
+    """Column kinds are decided per dtype family.  ``np.issubdtype(dtype, float)`` looks like "is this a floating-point column"
+    but the builtin stands for ONE dtype (float64): single-precision columns take the other branch."""
+    R = 'C19.f'
+    ctx.describe(R, 'dtype family tests in the readers/writers use the abstract numpy families, not one concrete builtin type', floor=3)
+    n = 0
+    for m in sorted(ix.modules.values(), key=lambda m_: m_.name):
+        if not (m.name.startswith('glue.core.data_factories') or m.name.startswith('glue.core.data_exporters')):
+            continue
+        for c in ast.walk(m.tree):
+            if isinstance(c, ast.Attribute) and c.attr == 'kind' and isinstance(c.value, ast.Attribute) and c.value.attr == 'dtype':
+                n += 1      # dtype.kind tests: family tests by construction
+                ctx.ob(R, '%s dtype.kind' % m.name, 'family test through dtype.kind', True, nontrivial=False)
+            if not (isinstance(c, ast.Call) and call_name(c) == 'issubdtype' and len(c.args) == 2):
+                continue
+            n += 1
+            t = c.args[1]
+            bad = isinstance(t, ast.Name) and t.id in BUILTIN_SCALARS
+            ctx.ob(R, '%s `%s`' % (m.name, norm(c)), 'the second argument of issubdtype is a dtype family (np.floating, np.integer, ...)', not bad,
+                   detail='`%s` in %s tests against the builtin `%s`, which numpy reads as %s: columns of the same family with another '
+                          'width (float32 in a VO table, int32 in a FITS table) are treated as if they were of another kind, e.g. their '
+                          'missing values are filled with -1 instead of NaN' % (norm(c), m.name, unparse(t), BUILTIN_SCALARS.get(unparse(t), '')),
+                   where='%s:%d' % (m.relpath, c.lineno))
+    if n < 3:
+        raise AnalysisError('C19.f: only %d dtype family tests found in the readers / writers' % n)
